@@ -160,6 +160,18 @@ func genChain(depth int, variant string) *chainProg {
 					w("\t\td, s, t)")
 				}
 				w("\treturn r + 1")
+			case "multiline3":
+				// a method call continued after the dot (fluent style): the call is on the line of the method name
+				if nextMethod {
+					w("\tr := t.")
+					w(fmt.Sprintf("\t\t%s%d(sel, d, s)", mpre, i+1))
+					p.callLine[i] = line
+				} else {
+					w(fmt.Sprintf("\tr := %s%d(sel,", fpre, i+1))
+					p.callLine[i] = line
+					w("\t\td, s, t)")
+				}
+				w("\treturn r + 1")
 			case "multiline2":
 				// the argument list starts on the line after the opening parenthesis
 				if nextMethod {
@@ -215,7 +227,7 @@ func checkC20(tier string, seed int64) int {
 	}
 	var chains []*chainProg
 	for _, d := range depths {
-		for _, v := range []string{"plain", "loop", "switch", "stmt", "multiline", "multiline2", "lambda", "rawstring", "imported", "emptycalls"} {
+		for _, v := range []string{"plain", "loop", "switch", "stmt", "multiline", "multiline2", "multiline3", "lambda", "rawstring", "imported", "emptycalls"} {
 			chains = append(chains, genChain(d, v))
 		}
 	}
@@ -351,7 +363,7 @@ func checkC20(tier string, seed int64) int {
 	lagg.Into(c, "pos_lemma_")
 	c.Assumption("position lemma: line and column are arbitrary positive int32 values; file/function names from a fixed list; line and column must read back exactly below 65535, names always, and info must not fail for any value")
 	c.Cov("paths_compared", st.compared)
-	c.Cov("rule", fmt.Sprintf("call chains of depth %v through functions and methods, in ten variants (preceded by completed calls to empty functions; the chain in a package imported under a path that differs from its name, loaded with Load; plain, preceded by a loop, by a switch, by a function literal, by a multi-line raw string and block comment; call as statement; call spread over two lines in two ways) with seven fault kinds (index, divide by zero, panic, nil struct access, nil func call, nil map write, slice bounds) planted at generator-known lines in every level; symbolic selectors decide which fault fires at which depth, so all (depth, fault) pairs of a chain are covered by one exploration; the real error text is checked in three pipelines (public Eval, in-package optimizer on, optimizer off): first line = function and line of the fault, then one line per active call innermost first with the line of the call, and on == off", depths))
+	c.Cov("rule", fmt.Sprintf("call chains of depth %v through functions and methods, in eleven variants (method call continued after the dot; preceded by completed calls to empty functions; the chain in a package imported under a path that differs from its name, loaded with Load; plain, preceded by a loop, by a switch, by a function literal, by a multi-line raw string and block comment; call as statement; call spread over two lines in two ways) with seven fault kinds (index, divide by zero, panic, nil struct access, nil func call, nil map write, slice bounds) planted at generator-known lines in every level; symbolic selectors decide which fault fires at which depth, so all (depth, fault) pairs of a chain are covered by one exploration; the real error text is checked in three pipelines (public Eval, in-package optimizer on, optimizer off): first line = function and line of the fault, then one line per active call innermost first with the line of the call, and on == off", depths))
 	return c.Finish(false)
 }
 
